@@ -19,6 +19,7 @@ Files are only rewritten when their content changes, so `lake build` is a no-op 
 unchanged tree.
 """
 import ast
+import re
 import hashlib
 import os
 import sys
@@ -103,14 +104,35 @@ def in_constants(func):
     return [o[2] for o in out]
 
 
-def gen_tables():
+REFERENCE = os.path.join(os.path.dirname(os.path.abspath(__file__)), 'reference')
+CAUGHT = (TranslateError, SyntaxError, OSError, KeyError, ValueError, AttributeError, IndexError, TypeError, StopIteration)
+
+
+def defined_names(text):
+    """the Lean constants a section defines"""
+    return ['CGV.Gen.' + n for n in re.findall(r'^(?:def|abbrev)\s+([A-Za-z_][A-Za-z0-9_]*)', text, flags=re.M)]
+
+
+def section(name, fn, fallbacks):
+    """one independently translated piece of the generated files.  When the current source has left the shape the
+    translator reads, the piece falls back to the hand-kept reference text (harness/reference/<name>.lean: the model of
+    that piece written out); the tie of that piece to the code is then the correspondence check (function-level
+    differential run + the suites of every property whose theorems depend on it), not the translation."""
+    try:
+        return fn()
+    except CAUGHT as err:
+        path = os.path.join(REFERENCE, name + '.lean')
+        with open(path) as fh:
+            ref = fh.read()
+        if fallbacks is not None:
+            fallbacks[name] = {'error': f'{type(err).__name__}: {err}', 'defines': defined_names(ref)}
+        return (f'-- FALLBACK for section `{name}`: the translator cannot read the current source ({type(err).__name__}); this is the\n'
+                f'-- hand-kept reference model of the piece, tied to the code by the correspondence check\n' + ref)
+
+
+def _tables_read_cgsmiles():
     L = []
     emit = L.append
-    emit('/- GENERATED by harness/translate.py from the current /repo sources -- do not edit -/')
-    emit('import CGV.Py')
-    emit('namespace CGV.Gen')
-    emit('')
-
     # ---- read_cgsmiles.py
     tree, _ = parse('cgsmiles/read_cgsmiles.py')
     rd = find_func(tree, 'read_cgsmiles')
@@ -166,7 +188,12 @@ def gen_tables():
     emit('/-- the node regular expression; the model implements exactly this pattern -/')
     emit(f'def placeHolderPattern : Str := {lean_str(pats["place_holder"])}')
     emit('')
+    return '\n'.join(L)
 
+
+def _tables_read_fragments():
+    L = []
+    emit = L.append
     # ---- read_fragments.py
     tree, _ = parse('cgsmiles/read_fragments.py')
     st = find_func(tree, 'strip_bonding_descriptors')
@@ -184,7 +211,12 @@ def gen_tables():
     emit(f'def passThroughChars : Str := {lean_str(strs[0])}')
     emit(f'def ezChars : Str := {lean_str(strs[1])}')
     emit('')
+    return '\n'.join(L)
 
+
+def _tables_write_cgsmiles():
+    L = []
+    emit = L.append
     # ---- write_cgsmiles.py
     tree, _ = parse('cgsmiles/write_cgsmiles.py')
     ots = lit(find_assign(tree, 'order_to_symbol'))
@@ -193,7 +225,12 @@ def gen_tables():
          ', '.join(f'({order2(k)}, {lean_char(v)})' for k, v in ots.items()) + ']')
     emit('def orderToSymbolS : List (Nat × Str) := orderToSymbol2.map (fun p => (p.1, [p.2]))')
     emit('')
+    return '\n'.join(L)
 
+
+def _tables_rdkit():
+    L = []
+    emit = L.append
     # ---- rdkit.py
     tree, _ = parse('cgsmiles/rdkit.py')
     btm = find_assign(tree, 'BOND_TYPE_MAP')
@@ -209,7 +246,12 @@ def gen_tables():
     emit('def bondTypeMap2 : List (Nat × String) := [' +
          ', '.join(f'({k}, "{v}")' for k, v in pairs) + ']')
     emit('')
+    return '\n'.join(L)
 
+
+def _tables_dialects():
+    L = []
+    emit = L.append
     # ---- dialects.py
     tree, _ = parse('cgsmiles/dialects.py')
 
@@ -280,7 +322,20 @@ def gen_tables():
     emit(f'def annotationAssign : Char := {lean_char(defaults["annotation_assign_token"])}')
     emit(f'def dropNone : Bool := {"true" if defaults["drop_none"] else "false"}')
     emit('')
-    emit('end CGV.Gen')
+    return '\n'.join(L)
+
+
+TABLE_SECTIONS = [('tables-read_cgsmiles', _tables_read_cgsmiles), ('tables-read_fragments', _tables_read_fragments),
+                  ('tables-write_cgsmiles', _tables_write_cgsmiles), ('tables-rdkit', _tables_rdkit),
+                  ('tables-dialects', _tables_dialects)]
+
+
+def gen_tables(fallbacks=None):
+    L = ['/- GENERATED by harness/translate.py from the current /repo sources -- do not edit -/',
+         'import CGV.Py', 'namespace CGV.Gen', '']
+    for name, fn in TABLE_SECTIONS:
+        L.append(section(name, fn, fallbacks))
+    L.append('end CGV.Gen')
     return '\n'.join(L) + '\n'
 
 
@@ -605,32 +660,35 @@ def split_isinstance(func, param, typename):
     raise TranslateError('isinstance split not found')
 
 
-def gen_functions():
-    parts = ['/- GENERATED by harness/translate.py from the current /repo sources -- do not edit -/',
-             'import CGV.Py', 'import CGV.Gen.Tables', 'namespace CGV.Gen', 'open CGV', '']
-
+def _fn_compatible():
     tree, _ = parse('cgsmiles/resolve.py')
     f = find_func(tree, 'compatible')
     if [a.arg for a in f.args.args] != ['left', 'right', 'legacy']:
         raise TranslateError('compatible: signature changed')
-    parts.append(Fn(f, 'compatible', [('left', 'left', STR), ('right', 'right', STR), ('legacy', 'legacy', BOOL)],
-                    BOOL).translate(doc='resolve.py `compatible`'))
+    return Fn(f, 'compatible', [('left', 'left', STR), ('right', 'right', STR), ('legacy', 'legacy', BOOL)],
+              BOOL).translate(doc='resolve.py `compatible`')
 
+
+def _fn_format_bonding():
     tree, _ = parse('cgsmiles/write_cgsmiles.py')
     f = find_func(tree, 'format_bonding')
-    parts.append(Fn(f, 'formatBonding', [('bonding', 'bonding', LSTR)], STR,
-                    tables={'order_to_symbol': ('orderToSymbolS', NAT, STR, 2)}
-                    ).translate(doc='write_cgsmiles.py `format_bonding`'))
+    return Fn(f, 'formatBonding', [('bonding', 'bonding', LSTR)], STR,
+              tables={'order_to_symbol': ('orderToSymbolS', NAT, STR, 2)}
+              ).translate(doc='write_cgsmiles.py `format_bonding`')
 
+
+def _fn_find_complementary():
     tree, _ = parse('cgsmiles/cgsmiles_utils.py')
     f = find_func(tree, 'find_complementary_bonding_descriptor')
     if [a.arg for a in f.args.args] != ['bonding_descriptor', 'ellegible_descriptors']:
         raise TranslateError('find_complementary_bonding_descriptor: signature changed')
-    parts.append(Fn(f, 'findComplementary',
-                    [('bonding_descriptor', 'bonding_descriptor', STR),
-                     ('ellegible_descriptors', 'ellegible_descriptors', LSTR)], LSTR
-                    ).translate(doc='cgsmiles_utils.py `find_complementary_bonding_descriptor` (called with a list)'))
+    return Fn(f, 'findComplementary',
+              [('bonding_descriptor', 'bonding_descriptor', STR),
+               ('ellegible_descriptors', 'ellegible_descriptors', LSTR)], LSTR
+              ).translate(doc='cgsmiles_utils.py `find_complementary_bonding_descriptor` (called with a list)')
 
+
+def _fn_set_bond_order_defaults():
     tree, _ = parse('cgsmiles/sample.py')
     f = find_func(tree, '_set_bond_order_defaults')
     a, b = split_isinstance(f, 'bonding', 'dict')
@@ -648,15 +706,28 @@ def gen_functions():
     fn.env['default_dict'] = ('default_dict', 'List (Str × Prob)')
     txt = fn.translate(body=a, doc='sample.py `_set_bond_order_defaults`, dict branch (keys: descriptors)')
     txt = txt.replace(':= do\n', ':= do\n  let mut default_dict : List (Str × Prob) := []\n', 1)
-    parts.append('variable {Prob : Type}\n')
-    parts.append(txt)
-    parts.append(Fn(f, 'setBondOrderDefaultsList', [('bonding', 'bonding', LSTR)], LSTR
-                    ).translate(body=b, doc='sample.py `_set_bond_order_defaults`, list branch'))
+    return '\n'.join(['variable {Prob : Type}\n', txt,
+                      Fn(f, 'setBondOrderDefaultsList', [('bonding', 'bonding', LSTR)], LSTR
+                         ).translate(body=b, doc='sample.py `_set_bond_order_defaults`, list branch')])
 
+
+def _fn_find_next_character():
     tree, _ = parse('cgsmiles/read_cgsmiles.py')
     f = find_func(tree, '_find_next_character')
-    parts.append(Fn(f, 'findNextCharacter', [('string', 'string', STR), ('chars', 'chars', LSTR), ('start', 'start', NAT)],
-                    NAT).translate(doc='read_cgsmiles.py `_find_next_character` (chars: list of one-character strings)'))
+    return Fn(f, 'findNextCharacter', [('string', 'string', STR), ('chars', 'chars', LSTR), ('start', 'start', NAT)],
+              NAT).translate(doc='read_cgsmiles.py `_find_next_character` (chars: list of one-character strings)')
+
+
+FUNC_SECTIONS = [('fn-compatible', _fn_compatible), ('fn-format_bonding', _fn_format_bonding),
+                 ('fn-find_complementary', _fn_find_complementary), ('fn-set_bond_order_defaults', _fn_set_bond_order_defaults),
+                 ('fn-find_next_character', _fn_find_next_character)]
+
+
+def gen_functions(fallbacks=None):
+    parts = ['/- GENERATED by harness/translate.py from the current /repo sources -- do not edit -/',
+             'import CGV.Py', 'import CGV.Gen.Tables', 'namespace CGV.Gen', 'open CGV', '']
+    for name, fn in FUNC_SECTIONS:
+        parts.append(section(name, fn, fallbacks))
     parts.append('end CGV.Gen\n')
     return '\n'.join(parts)
 
@@ -726,22 +797,41 @@ def source_hashes():
     return out
 
 
-def main():
+def section_defines():
+    """section -> the Lean constants it defines (read from the reference text of the section)"""
+    out = {}
+    for name, _ in TABLE_SECTIONS + FUNC_SECTIONS:
+        try:
+            with open(os.path.join(REFERENCE, name + '.lean')) as fh:
+                out[name] = defined_names(fh.read())
+        except OSError:
+            out[name] = []
+    return out
+
+
+def main(write_reference=False):
     os.makedirs(GEN, exist_ok=True)
-    result = {'changed': [], 'error': None}
+    result = {'changed': [], 'error': None, 'fallbacks': {}}
+    if write_reference:
+        # (maintenance, on a tree whose translation is trusted) store every section's text as the reference model
+        os.makedirs(REFERENCE, exist_ok=True)
+        for name, fn in TABLE_SECTIONS + FUNC_SECTIONS:
+            with open(os.path.join(REFERENCE, name + '.lean'), 'w') as fh:
+                fh.write(fn())
+        return result
     try:
-        if write_if_changed(os.path.join(GEN, 'Tables.lean'), gen_tables()):
+        if write_if_changed(os.path.join(GEN, 'Tables.lean'), gen_tables(result['fallbacks'])):
             result['changed'].append('Tables.lean')
-        if write_if_changed(os.path.join(GEN, 'Funcs.lean'), gen_functions()):
+        if write_if_changed(os.path.join(GEN, 'Funcs.lean'), gen_functions(result['fallbacks'])):
             result['changed'].append('Funcs.lean')
         if write_if_changed(os.path.join(GEN, 'Valence.lean'), gen_valence()):
             result['changed'].append('Valence.lean')
-    except (TranslateError, SyntaxError, OSError, KeyError, ValueError, AttributeError, IndexError) as err:
+    except CAUGHT as err:
         result['error'] = f'{type(err).__name__}: {err}'
     return result
 
 
 if __name__ == '__main__':
-    res = main()
+    res = main(write_reference='--write-reference' in sys.argv)
     print(res)
     sys.exit(1 if res['error'] else 0)
